@@ -84,6 +84,35 @@ int main(int argc, char** argv) {
     if (e == NONE) { RCHECK(off > len || r.where() <= len, "cursor %zu is beyond the end of the %zu-byte buffer (remaining() = %zu)", r.where(), len, r.remaining());
       RCHECK(memcmp(s.data(), d + off, s.size()) == 0, "line content"); }
   }
+  else if (m == "bitr_pread" || m == "bitr_read") {
+    // len / offsets are in bits here
+    size_t nbits = len, at = (m == "bitr_pread") ? offset : off; uint8_t n = (uint8_t)size;
+    if (n > 64) { BitReader br(d, nbits, off); bool threw = false; try { br.pread(at, n); } catch (const logic_error&) { threw = true; } RCHECK(threw, "size > 64 must throw"); printf("holds\n"); return 0; }
+    if (!inr(at, n, nbits)) { printf("out-of-range bit read is outside the contract (precondition)\n"); return 2; }
+    uint8_t* bd = guarded((nbits + 7) / 8); BitReader br(bd, nbits, off);
+    uint64_t v = (m == "bitr_pread") ? br.pread(at, n) : br.read(n, adv);
+    uint64_t e = 0; for (size_t i = 0; i < n; i++) e = (e << 1) | ((bd[(at + i) >> 3] >> (7 - ((at + i) & 7))) & 1);
+    RCHECK(v == e, "read %u bits at bit %zu: 0x%llX, MSB-first packing gives 0x%llX", n, at, (unsigned long long)v, (unsigned long long)e);
+    if (m == "bitr_read") RCHECK(br.where() == off + (adv ? n : 0), "cursor %zu", br.where());
+  }
+  else if (m == "bitw_write" || m == "bitw_size") {
+    size_t nbits = A.u("g_oldbits"); if (nbits > (1u << 16)) return 2; BitWriter w; string ref;
+    for (size_t i = 0; i < nbits; i++) { bool b = (i * 7 + 3) % 5 < 2; w.write(b); ref.push_back(b); }
+    RCHECK(w.size() == nbits, "size() = %zu after %zu writes", w.size(), nbits);
+    bool v = A.u("in_v") != 0; w.write(v); ref.push_back(v);
+    RCHECK(w.size() == nbits + 1, "size() = %zu after one more write", w.size());
+    const string& s = w.str();
+    for (size_t i = 0; i < ref.size(); i++) RCHECK((((uint8_t)s[i >> 3] >> (7 - (i & 7))) & 1) == (uint8_t)ref[i], "bit %zu is not what was written (MSB-first)", i);
+    if (ref.size() & 7) RCHECK((((uint8_t)s.back()) & ((1u << (8 - (ref.size() & 7))) - 1)) == 0, "unset bits of the last byte are not zero");
+  }
+  else if (m == "sw_write" || m == "sw_extend_to" || m == "sw_extend_by" || m == "sw_size") {
+    size_t ws = A.u("g_wsize"); if (ws > (1u << 20) || size > (1u << 20)) return 2;
+    StringWriter w; w.extend_to(ws, 'q'); string src(size, 'Z'); for (size_t i = 0; i < size; i++) src[i] = (char)(i * 13 + 1);
+    if (m == "sw_write") { w.write(src.data(), size); RCHECK(w.size() == ws + size && memcmp(w.str().data() + ws, src.data(), size) == 0 && w.str().compare(0, ws, string(ws, 'q')) == 0, "write: size %zu", w.size()); }
+    else if (m == "sw_extend_to") { char c = (char)A.u("in_v"); w.extend_to(size, c); RCHECK(w.size() == size, "extend_to"); for (size_t i = 0; i < size; i++) RCHECK(w.str()[i] == (i < ws ? 'q' : c), "byte %zu", i); }
+    else if (m == "sw_extend_by") { char c = (char)A.u("in_v"); w.extend_by(size, c); RCHECK(w.size() == ws + size, "extend_by"); for (size_t i = 0; i < ws + size; i++) RCHECK(w.str()[i] == (i < ws ? 'q' : c), "byte %zu", i); }
+    else RCHECK(w.size() == ws, "size");
+  }
   else if (m == "bw_pwrite" || m == "bw_write") {
     if (size > (1u << 20)) return 2; bool pos = m == "bw_pwrite"; size_t at = pos ? offset : off;
     uint8_t* buf = guarded(len); string src(size, 'Z'); BufferWriter w(buf, len);
